@@ -28,12 +28,14 @@ def run(ctx):
         mc_feat.run_burstfeat(ctx, 'C05', 4, 1, 2, 2)
         mc_feat.run_shape(ctx, 'C05', 4, 2)
         pipeline.run_corpus(ctx, 200, PREFIXES, seed_offset=5, kinds=kinds, mutate_opts=cyc)
+        pipeline.run_large(ctx, PREFIXES, 5, 3, 1, mutate_opts=cyc)          # beyond small scopes: long cycles, long recordings
     else:
         mc_feat.run_burstfeat(ctx, 'C05', 4, 0, 2, 2)
         mc_feat.run_burstfeat(ctx, 'C05', 4, -1, 1, 2)
         mc_feat.run_burstfeat(ctx, 'C05', 5, 1, 2, 2)
         mc_feat.run_shape(ctx, 'C05', 6, 2)
         pipeline.run_corpus(ctx, 4000, PREFIXES, seed_offset=5, kinds=kinds, mutate_opts=cyc, max_len=2600)
+        pipeline.run_large(ctx, PREFIXES, 5, 12, 6, mutate_opts=cyc)          # beyond small scopes: long cycles, long recordings
 
 
 def replay(ctx, case):
